@@ -160,6 +160,7 @@ SWITCHES = ("nesting", "srp", "magic-numbers", "print-statements", "method-prope
             "lbyl", "performance", "unwrap-abuse", "clone-abuse", "blocking-async", "file-header", "lazy-ignores", "cqs", "stringly-typed")
 SUBJECTS = (("nesting", "nesting.", ("nest.py", "nest.ts", "srp.py")), ("magic-numbers", "magic-numbers.", ("magic.py", "srp.ts")),
             ("srp", "srp.", ("srp.py", "stateless.py")), ("unwrap-abuse", "unwrap-abuse", ("unwrap.rs", "blocking.rs")),
+            ("collection-pipeline", "collection-pipeline.", ("pipeline.py",)),
             ("print-statements", "improper-logging.", ("printy.py", "printy.js")), ("lbyl", "lbyl", ("lbyl.py",)))
 _BASE = {}
 _TIER = {"t": "quick"}
@@ -170,7 +171,7 @@ def h_config_isolation(ctx):
     from src.core.config_parser import _normalize_config_keys
     from src.orchestrator.core import Orchestrator
     d = _proj()
-    section, prefix, names = ctx.pick("subject", SUBJECTS if _TIER["t"] != "quick" else SUBJECTS[:4])
+    section, prefix, names = ctx.pick("subject", SUBJECTS if _TIER["t"] != "quick" else SUBJECTS[:5])
     ctx.note("subject", section)
     files = [d / "src" / n for n in names]
 
@@ -187,6 +188,9 @@ def h_config_isolation(ctx):
     for s, key in (OTHERS if not quick else OTHERS[:3]):
         if s != section:
             cfg.setdefault(s, {})[key] = ctx.int("%s_%s" % (s.replace("-", "_"), key), 1)
+    # stray top-level keys that belong to no linter section (global settings, leftovers): no linter reads them as its own
+    if ctx.flag("stray_top_level_keys"):
+        cfg.update({"enabled": False, "min_continues": 9, "max_nesting_depth": 1, "max_methods": 1, "allowed_numbers": [3975], "output_format": "text"})
     ign.clear_ignore_parser_cache()
     got = own(Orchestrator(project_root=d, config=_normalize_config_keys(cfg)).lint_files(files))
     ctx.cover("checked")
@@ -218,6 +222,6 @@ def obligations(tier):
            timeout=600, workers=14, must_cover=("reports",)),
         Ob(name="K4-config-isolation", engine="pathex", harness=h_config_isolation,
            functions=["Orchestrator.lint_files with symbolic settings of the other linters", "each rule's _load_config"],
-           bounds="for 6 subject linters: `enabled` of up to 15 other linters symbolic booleans and 6 of their thresholds unbounded integers >= 1 (all symbolic; path splits only where those other rules branch)",
+           bounds="for 7 subject linters (stray top-level keys added or not): `enabled` of up to 15 other linters symbolic booleans and 6 of their thresholds unbounded integers >= 1 (all symbolic; path splits only where those other rules branch)",
            timeout=900, workers=14, must_cover=("checked",)),
     ]
